@@ -69,6 +69,11 @@ CHECKS = {
   technique="runtime monitoring: crash/budget watchdogs around the real linter (counting resolver for include expansion), repeat monitor (8 fresh lint runs per input, multiset equality) and permutation monitor (subroutine declarations permuted, diagnostics mapped to (declaration, statement ordinal))",
   text="Generated programs (type-blind, hence ill-typed as often as not), hand-written recursion/duplicate/goto/functional programs, every example file and all include digraphs over up to three modules (top-level and in-subroutine includes) are linted by the real linter in supervised workers: no panic, no stack overflow, no more than 10000 module loads; eight repeated runs must give equal diagnostic multisets; permuting the subroutine declarations must leave the diagnostics unchanged apart from locations.",
   note="Map-iteration nondeterminism is only sampled (8 repetitions per input, thousands of inputs); the location mapping relies on the renderer's token positions."),
+ "C09": dict(
+  category="exploration", design_ref="DESIGN.md §4 C09",
+  technique="runtime monitoring, metamorphic pair monitor: every program P is linted and executed next to decorated variants D(P) that differ only in ordinary comments and whitespace; the oracle compares diagnostic multisets (locations mapped back to token offsets) and, in the simulator, the debugger-snapshot trace, the log lines, the returned state and the reported error",
+  text="Programs from the grammar-directed generator (type-blind, many diagnostics: lint half) and from the typed generator (executable: simulator half) are decorated: one comment of each style (#, //, /* */) in each gap between two tokens alone (small programs, exhaustive per program), random multi-gap decorations, and whitespace-only layouts (tight, tabs, CRLF, blank lines). Diagnostics apart from line/column, executed statements, variable values before every statement, logs, returned state and reported error must be identical.",
+  note="A variant that no longer parses is outside the property and only counted. The simulator half executes the core language only (set/unset/log/if/switch/call/return on locals and req.http.*), not the whole state machine; comment text is drawn from a pool that cannot be read as an annotation."),
 }
 
 NOT_APPLICABLE = {}
